@@ -1508,6 +1508,18 @@ val gen_md_doc :
   mode -> n list option -> n list -> n list list -> n list list -> n -> elem
   list
 
+type gtest = { g_title : n list option; g_cmd : n list;
+               g_conts : n list list; g_lines : n list list; g_code : 
+               n }
+
+val gen_cram_one : mode -> gtest -> block list
+
+val gen_cram_docs : mode -> gtest list -> block list
+
+val gen_md_one : mode -> n list option -> gtest -> elem list
+
+val gen_md_docs : mode -> n list option -> gtest list -> elem list
+
 val is_az : n -> bool
 
 val is_09 : n -> bool
